@@ -55,6 +55,15 @@ extern "C" void harness() {
     VASSERT(t[k].row() != 0, "no unscaled regulariser on a row that already has a weighted diagonal entry");
   }
   VASSERT(t.size() <= n0 + 1, "at most the net-less cell is regularised");
+#ifndef VERIF_NATIVE
+  // the stopping criteria handed to the conjugate-gradient solver are the caller's, unscaled (a tolerance that depended on the
+  // right-hand side would make the result depend on a common scaling of weights and penalties)
+  float tol = __verif_nondet_float(1.0e-6f, 0.1f);
+  int maxit = __verif_nondet_int(1, 10000);
+  std::vector<float> sol = mc.solve(tol, maxit);
+  VASSERT(sol.size() == 2, "one coordinate per cell");
+  __verif_assert_env(__verif_cg_tolerance == tol && __verif_cg_max_iterations == maxit, "the solver receives the tolerance and iteration limit unchanged");
+#endif
   __verif_cover("end");
 }
 #else
